@@ -1360,6 +1360,79 @@ func ruleEOFJudgedByParse(c *Ctx, rule string) {
 			}
 			return true
 		})
+		// `if t == EOF { return R }` directly in front of `switch t { … default: return R }` (no arm for EOF
+		// or the terminator) decides nothing: EOF would reach the default arm and leave with the same R
+		redundant := map[ast.Expr]bool{}
+		inspectBody(f.Decl.Body, func(x ast.Node) bool {
+			var list []ast.Stmt
+			switch b := x.(type) {
+			case *ast.BlockStmt:
+				list = b.List
+			case *ast.CaseClause:
+				list = b.Body
+			}
+			for i := 0; i+1 < len(list); i++ {
+				ifs, ok := list[i].(*ast.IfStmt)
+				if !ok || ifs.Init != nil || ifs.Else != nil || len(ifs.Body.List) != 1 {
+					continue
+				}
+				be, ok := ast.Unparen(ifs.Cond).(*ast.BinaryExpr)
+				if !ok || be.Op != token.EQL || !isTok(f, be.Y, "EOF") {
+					continue
+				}
+				ret, ok := ifs.Body.List[0].(*ast.ReturnStmt)
+				sw, ok2 := list[i+1].(*ast.SwitchStmt)
+				if !ok || !ok2 || sw.Init != nil || sw.Tag == nil || exprKey(sw.Tag) != exprKey(be.X) {
+					continue
+				}
+				same := false
+				clean := true
+				sameRet := func(r2 *ast.ReturnStmt) bool {
+					if len(r2.Results) != len(ret.Results) {
+						return false
+					}
+					for k := range ret.Results {
+						if exprKey(r2.Results[k]) != exprKey(ret.Results[k]) {
+							return false
+						}
+					}
+					return true
+				}
+				hasDefault := false
+				for _, cl := range sw.Body.List {
+					cc := cl.(*ast.CaseClause)
+					if cc.List == nil {
+						hasDefault = true
+						if len(cc.Body) == 1 {
+							if r2, ok := cc.Body[0].(*ast.ReturnStmt); ok && sameRet(r2) {
+								same = true
+							}
+						}
+						if len(cc.Body) == 0 && i+2 < len(list) {
+							if r2, ok := list[i+2].(*ast.ReturnStmt); ok && sameRet(r2) {
+								same = true
+							}
+						}
+						continue
+					}
+					for _, e := range cc.List {
+						if isTok(f, e, "EOF") || isTok(f, e, "SEMICOLON") {
+							clean = false
+						}
+					}
+				}
+				if !hasDefault && i+2 < len(list) {
+					// no default arm: EOF falls out of the switch to the statement that follows it
+					if r2, ok := list[i+2].(*ast.ReturnStmt); ok && sameRet(r2) {
+						same = true
+					}
+				}
+				if same && clean {
+					redundant[ifs.Cond] = true
+				}
+			}
+			return true
+		})
 		for _, cond := range conds {
 			eof, semi := false, false
 			ast.Inspect(cond, func(y ast.Node) bool {
@@ -1384,6 +1457,8 @@ func ruleEOFJudgedByParse(c *Ctx, rule string) {
 				c.OK(rule, key, cond.Pos(), 1, "Parse's own end-of-input test (after the optional terminator)")
 			case semi:
 				c.OK(rule, key, cond.Pos(), 1, "the test admits the terminator as well")
+			case redundant[cond]:
+				c.OK(rule, key, cond.Pos(), 1, "returns what the default arm of the switch that follows returns for EOF anyway")
 			default:
 				c.Fail(rule, key, cond.Pos(), "%s tests the current token against EOF (%s): at that point the statement terminator ';' has not been consumed yet (Parse does that afterwards), so a statement that ends in ';' is rejected or parsed differently from the same statement without it", f.Name, f.Src(cond))
 			}
